@@ -105,6 +105,26 @@ def c14_families(tier):
     ex.append(fam("numX", "num", 0, S("0X"), [48, 49, 102, 70, 46, 101, 120], 5))
     ex.append(fam("numE", "num", 0, S("1E"), [48, 49, 43, 45, 46, 101], 5))
     ex.append(fam("nume", "num", 0, S("1e"), [48, 49, 43, 45, 46, 69], 5))
+    # Go-isms (always on, tiny): '_' separators, 0b / 0o prefixes, hex floats -- all Reject in the oracle
+    US = 95
+    ex.append(fam("gohex", "num", 0, S("0x"), [48, 49, 70, US], 6))
+    ex.append(fam("goHEX", "num", 0, S("0X"), [49, 102, US], 5))
+    ex.append(fam("gohexl", "num", 0, S("0xdead_beef"), [48, US], 12))
+    ex.append(fam("godec", "num", 0, S("1"), [48, 53, US, 46, 101], 5))
+    ex.append(fam("gooct", "num", 0, S("0"), [49, 55, US, 46], 5))
+    ex.append(fam("godot", "num", 0, S("."), [53, 49, US, 101], 5))
+    ex.append(fam("goneg", "num", 0, S("-"), [48, 49, US, 120], 5))
+    ex.append(fam("goexp", "num", 0, S("1e"), [49, 48, US, 43, 45], 5))
+    for pfx in ("0b", "0B"):
+        ex.append(fam("go" + pfx, "num", 0, S(pfx), [48, 49, 50, US], 5))
+    for pfx in ("0o", "0O"):
+        ex.append(fam("go" + pfx, "num", 0, S(pfx), [49, 55, 56, US], 5))
+    ex.append(fam("gohexf", "num", 0, S("0x1"), [112, 46, 56, 45, 49], 7))
+    ex.append(fam("gohexP", "num", 0, S("0X1P"), [45, 43, 49, 50], 7))
+    ex.append(fam("gohexd", "num", 0, S("0x."), [56, 112, 49], 6))
+    if tier == "thorough":
+        ex.append(fam("go5", "num", 0, [], [48, 49, US, 120, 46, 101, 98, 70], 5))
+        ex.append(fam("go6", "num", 0, S("0"), [49, US, 120, 111, 112, 46, 102], 6))
     numalpha = [48, 49, 55, 56, 57, 102, 101, 46, 45, 120]
     for i, b in enumerate(NUM_BOUNDS):
         ex.append(fam("nb%d" % i, "num", 0, S(b), numalpha, len(b) + 1))
@@ -119,7 +139,8 @@ def c14_families(tier):
     sim = [fam("simstr", "str", DQ, [], chunks, 40, 10, True),
            fam("simsq", "str", SQ, [], chunks, 40, 10, True)]
     nchunks = [S(x) for x in ["0", "1", "7", "8", "9", "5", "00", "123", "999999999", "184467440737", "a", "f", "e",
-                              "E", "x", "X", ".", "+", "-", "e+", "e-", "0x", "25", "000000", "e3", "e30", ".5"]]
+                              "E", "x", "X", ".", "+", "-", "e+", "e-", "0x", "25", "000000", "e3", "e30", ".5",
+                              "_", "1_0", "_1", "0b", "0o", "p-2", "p1"]]
     sim.append(fam("simnum", "num", 0, [], nchunks, 30, 6, True))
     sim.append(fam("simnumx", "num", 0, S("0x"), nchunks, 30, 6, True))
     sim.append(fam("simnumo", "num", 0, S("0"), [S(x) for x in ["0", "1", "7", "3", "8", "777777", ".", "e"]], 30, 6, True))
@@ -130,6 +151,7 @@ C14_RULES_REQUIRED = {"simple", "oct1", "oct2", "oct3", "hex1", "hex2", "u4", "U
                       "concat", "rej:lf", "rej:nul", "rej:escape", "rej:hex", "rej:u", "rej:U", "rej:Urange",
                       "rej:unterminated", "rej:trailing",
                       "hex", "octal", "decimal", "float", "float-exp", "float-dot-first", "neg",
+                      "rej:go-underscore", "rej:go-binary", "rej:go-octal-o", "rej:go-hexfloat",
                       "rej:not-a-number", "rej:dot", "rej:hexint", "rej:octalint", "rej:decimal", "rej:empty"}
 
 
